@@ -444,6 +444,16 @@ class Unit:
     # ------------------------------------------------------------------------------------------
     def transform_body(self, body, c, key, meta, f):
         t = body
+        # --- shape lock: loop/closure annotations are addressed by ordinal, so they are only trusted while the function has the
+        # number of loops and closures it had when the contract was written (contracts/shape.lock.json, dev/mklock.py).  An edit that
+        # adds or removes a loop/closure would silently shift the annotations onto other constructs: that is a lost anchor
+        # (undecided), never a verdict.
+        shape = [len(self.find_loops(t)), len(self.find_closures(t))]
+        meta['shape'] = shape
+        lock = self.shape_lock()
+        if c and (c.loops or c.closures) and lock is not None and key in lock and list(lock[key]) != shape:
+            raise ExtractError('%s: lost anchor: the function now has %d loops / %d closures, the contract was written for %d / %d'
+                               % (key, shape[0], shape[1], lock[key][0], lock[key][1]))
         # --- statement anchors are located on the pristine text and marked; the ghost text is spliced in at the very end
         anchors = []
         if c:
@@ -718,6 +728,12 @@ class Unit:
         while s0 < j and t[s0].isspace():
             s0 += 1
         return s0
+
+    def shape_lock(self):
+        if not hasattr(self, '_shape_lock'):
+            path = self.cfg.get('shape_lock')
+            self._shape_lock = json.load(open(path)) if path and os.path.exists(path) else None
+        return self._shape_lock
 
     def find_loops(self, t):
         """positions of loop keywords (for/while/loop) in statement position, in source order"""
